@@ -24,6 +24,9 @@ RULES = {
     "C12-O1": "contains_point is half-open, do_intersect closed on both sides, sign/sign0 piecewise constants, angle folding threshold pi",
     "C12-R1": "rotate_2d and rotate_around_axis are linear maps whose matrix, extracted from the source as polynomials in (cos, sin, axis), "
               "is orthogonal with determinant 1 and fixes the axis, identically modulo cos^2+sin^2=1 and |axis|=1 (a polynomial proof for all inputs)",
+    "C12-X1": "closed-form primitives of geometry.py are the textbook polynomials / angle forms (cross, det_2x2, det_3x3, quad_area, "
+              "aspect_ratio, triangle_area, angle primitives, right-handed face_basis) - rule shared with C07-X1, re-run here because the "
+              "statement of C12 names these identities",
     "C12-B1": "box algebra: intersection = (max of minima, min of maxima), union = (min of minima, max of maxima), projection clamps, distance uses max(mini - p, p - maxi, 0)",
 }
 
@@ -40,6 +43,7 @@ def run(ctx):
     o1_predicates(ctx)
     b1_box_algebra(ctx)
     r1_rotation_matrices(ctx)
+    x1_shared_primitives(ctx)
 
 
 # ---------------------------------------------------------------------------- E1
@@ -628,3 +632,18 @@ def r1_rotation_matrices(ctx):
     ctx.check(ok, "C12-R1", site, "rotate_around_axis is not Rodrigues' rotation matrix of (unit axis, angle) applied to its argument",
               f"R axis = axis, R^T R = I, det R = 1 and trace R = 1 + 2 cos must hold identically modulo cos^2+sin^2 = 1 and |axis| = 1 ({detail})",
               note="3x3 matrix fixes the axis, orthogonal, det 1, trace 1 + 2cos")
+
+
+def x1_shared_primitives(ctx):
+    """Run C07's polynomial-identity rule on geometry.py under a C12 rule id."""
+    from . import c07
+    n_f, n_i = len(ctx.findings), dict(ctx.instances)
+    c07.x1_primitives(ctx)
+    for f in ctx.findings[n_f:]:
+        if f.rule == "C07-X1":
+            f.rule = "C12-X1"
+    if "C07-X1" in ctx.instances:
+        ctx.instances["C12-X1"] = ctx.instances.pop("C07-X1") - n_i.get("C07-X1", 0)
+    for smp in ctx.samples:
+        if smp.get("rule") == "C07-X1":
+            smp["rule"] = "C12-X1"
